@@ -45,10 +45,21 @@ def runner_arguments(repo) -> List[Tuple[Dict[str, Any], Dict[str, Any]]]:
                 return sc["screening"]
             return NotImplemented
 
+        C = repo.cls(SOLVER, "TDGLSolver")
+
         def call(m, node, name, args, kwargs, got=got):
             if name == "Runner":
                 got.update(kwargs)
                 raise _Stop()
+            short = name.split(".")[-1]
+            # private helper methods of the solver (a solve() split into pieces) are followed
+            if name.startswith("self._") and name.count(".") == 1 and short in C.methods:
+                h = C.methods[short].node
+                from .smallstep import Closure
+                decos = {getattr(d, "id", "") for d in h.decorator_list}
+                if "staticmethod" in decos:
+                    return m.invoke(Closure(h, None), list(args), kwargs)
+                return m.invoke(Closure(h, None), [Opaque("self")] + list(args), kwargs)
             return NotImplemented
 
         def undecided(text):
@@ -56,7 +67,10 @@ def runner_arguments(repo) -> List[Tuple[Dict[str, Any], Dict[str, Any]]]:
             if "tmp_file" in text or ".device" in text:
                 return "tmp_file" in text
             return None
-        m = Machine({"self": Opaque("self")}, attrs, call, fuel=64, undecided=undecided)
+        from .smallstep import module_constants
+        env0 = dict(module_constants(fs.module.tree))
+        env0["self"] = Opaque("self")
+        m = Machine(env0, attrs, call, fuel=64, undecided=undecided)
         try:
             m.run(fs.node.body)
         except _Stop:
